@@ -62,6 +62,9 @@ def check(ctx: Ctx) -> None:
     # "a listing that returns a path outside the table" must reach the collector's `..` guard unfolded: no lexical normalisation
     from .c17 import no_lexical_normalisation
     no_lexical_normalisation(ctx, "C07.R14")
+    # a document that is not a manifest must abort the collection, not count as 'nothing reachable'
+    from .c14 import parsers_read_containers_strictly
+    parsers_read_containers_strictly(ctx, "C07.R15")
 
 
 def _assigns(ctx: Ctx, f: FunctionInfo, h: ast.ExceptHandler, name: str, value: object) -> bool:
